@@ -185,7 +185,7 @@ def run_job(job):
         if len(x.keys()):
             events.append(ev)
     # ---- (c) operand kinds on either side of infix and reflected operators ------------------------
-    kinds = ['int', 'npint', 'npfloat', 'list', 'tuple', 'callable', 'callable2', 'float']
+    kinds = ['int', 'npint', 'npfloat', 'list', 'tuple', 'callable', 'callable2', 'float', 'callable_list', 'callable2_tuple']
     for ci in range(n):
         # infix operators, and the operators that only exist as methods through the algebra-level call alg.<op>(left, right)
         opname = rng.choice(job['infix'] + ['lc', 'rc', 'sp', 'cp', 'acp'])
@@ -209,6 +209,10 @@ def run_job(job):
             obj, resolved, cont = [m1, m2], [m1, m2], 'list'
         elif kind == 'tuple':
             obj, resolved, cont = (m1, m2), [m1, m2], 'tuple'
+        elif kind == 'callable_list':       # a callable whose VALUE is a sequence: replaced by its value, then mapped over
+            obj, resolved, cont = (lambda: [m1, m2]), [m1, m2], 'list'
+        elif kind == 'callable2_tuple':
+            obj, resolved, cont = (lambda: (lambda: (m1, m2))), [m1, m2], 'tuple'
         elif kind == 'callable':
             obj, resolved, cont = (lambda: m1), [m1], 'single'
         else:
